@@ -1,7 +1,7 @@
 (* executable wrapper over the GENERATED pieces of ll2cr (Gen/GenC08.v): the parameters from ewa.py:ll2cr and the element
    loop body from _ll2cr.pyx:ll2cr_static; binary64, bit-exact (C08) *)
 From Coq Require Import ZArith List Bool PrimFloat.
-From PR Require Import Base.Num Base.F64 Base.ListX Model.Grid Model.EWA Model.C08_run Gen.GenC08.
+From PR Require Import Base.Num Base.F64 Base.ListX Base.Slice Base.Imp Model.Grid Model.EWA Model.C08_run Gen.GenC08 Gen.GenC08imp.
 Import ListNotations.
 Open Scope Z_scope.
 
@@ -14,3 +14,27 @@ Definition chk_ll2cr_gen (c : ll_case) : bool :=
   let '(a, fill, pts, n) := c in
   let '(cnt, out) := ll2cr_static_src F64 (params_of_tuple (gen_ll2cr_params F64 a)) fill (map fst pts) in
   (cnt =? n) && list_eqb (fun m e => same_bits (fst m) (fst e) && same_bits (snd m) (snd e)) out (map snd pts).
+
+(* ---- the GENERATED imperative definitions (Gen/GenC08imp.v) run against the implementation *)
+(* _generate_fornav_dask_tasks: the task dictionary in insertion order; task name / input name / area / fill / kwargs are
+   the tokens 7, 0, 0, 0, 0; an ll2cr block is ((0, in_row, in_col), token) *)
+Definition task_item := (Z * Z * Z * (Z * Z) * (Z * Z) * (Z * Z) * Z)%type.   (* z, out_row, out_col, y span, x span, (in_row, in_col), block token *)
+Definition chk_imp_tasks (c : list Z * list Z * list (Z * Z * Z) * list task_item) : bool :=
+  let '(ych, xch, blocks, items) := c in
+  match value_of (imp_fornav_tasks (ych, xch) (map (fun b => let '(ir, ic, tok) := b in ((0, ir, ic), tok)) blocks) 7 0 0 0 0) with
+  | COk d =>
+      list_eqb (fun (e : tkey * (Z * pslice * pslice * (Z * Z))) (it : task_item) =>
+                  let '(z, orow, ocol, (y0, y1), (x0, x1), (ir, ic), tok) := it in
+                  let '(k, (b, ys, xs, (ir', ic'))) := e in
+                  tkey_eqb k (7, z, orow, ocol) && (b =? tok) && (sstart ys =? y0) && (sstop ys =? y1) && (sstart xs =? x0) && (sstop xs =? x1)
+                  && (ir' =? ir) && (ic' =? ic)) d items
+  | _ => false
+  end.
+(* _get_rows_per_scan(keyword) with the lon/lat attrs: None = ValueError *)
+Definition chk_imp_rps (c : option Z * option Z * Z * option Z) : bool :=
+  let '(kw, attr, n, e) := c in
+  match value_of (imp_get_rows_per_scan kw true true attr n), e with
+  | COk v, Some x => v =? x
+  | CRaised, None => true
+  | _, _ => false
+  end.
